@@ -107,7 +107,7 @@ def coverage(total, tier):
     cov['bounds'] = {
         'E': 'all typed expression trees of depth<=1 over the full alphabet (10 int, 6 byte, 5 bool leaves; - * + / % unary- '
              'is-casts < == >= and or not) and depth 2 (thorough: partial depth 3) over the reduced alphabet, each in '
-             + ('every' if tier == 'thorough' else '3 round-robin') + ' use position(s) of its type; inputs ' + str(seq.E_ARGVS),
+             + ('every use position' if tier == 'thorough' else 'every use position for the leaves, 3 round-robin positions for deeper expressions') + ' of its type; inputs ' + str(seq.E_ARGVS),
         'S': f'all statement sequences of length<=2 over {len(seq.S_ATOMS)} atoms plus ' + ('all' if tier == 'thorough' else 'reduced-alphabet (10 atoms)')
              + ' sequences of length 3; inputs ' + str(seq.S_ARGVS),
         'F': f'{len(seq.F_PROGRAMS)} function-protocol programs (overloads, recursion, returns, RC/R/RW arrays, globals) at W in 2,3,4,8',
